@@ -419,6 +419,7 @@ func init() {
 					return Tuple{in.lenOf(a[0]), Iface{}}
 				case "Sum":
 					h := in.noteUF(in.tb.UF("crypto.hash", SortStr, alg, data))
+
 					if pre, ok := a[0].([]Value); ok && len(pre) > 0 {
 						return SymBytes{in.tb.Concat(in.bytesToStr(pre), h)}
 					}
@@ -430,6 +431,24 @@ func init() {
 				panic(in.abort("hash.Hash.%s is not modelled", method))
 			}
 			return Iface{T: fn.Signature.Results().At(0).Type(), V: obj}, true
+		}
+		// one-shot digests: the same uninterpreted H(alg, data) as the hash objects, as an array of fresh
+		// bytes tied to the digest text by a word equation
+		for name, ac := range map[string][2]int{"crypto/sha256.Sum256": {5, 32}, "crypto/sha256.Sum224": {4, 28}, "crypto/sha512.Sum384": {6, 48},
+			"crypto/sha512.Sum512": {7, 64}, "crypto/sha512.Sum512_224": {14, 28}, "crypto/sha512.Sum512_256": {15, 32}} {
+			ac := ac
+			e.Stubs[name] = func(in *Interp, fn *ssa.Function, args []Value) (Value, bool) {
+				tb := in.tb
+				algT := tb.BV(64, uint64(ac[0]))
+				h := in.noteUF(tb.UF("crypto.hash", SortStr, algT, in.bytesToStr(args[0])))
+				arr := make(Array, ac[1])
+				for i := range arr {
+					arr[i] = tb.IntToBV(tb.StrOp("str.to_code", SortInt, tb.StrOp("str.at", SortStr, h, tb.Int(int64(i)))), 8)
+				}
+				n := tb.Int(int64(ac[1]))
+				in.assertPC(tb.And(tb.IntCmp("<=", tb.StrLenInt(h), n), tb.IntCmp("<=", n, tb.StrLenInt(h))))
+				return arr, true
+			}
 		}
 		for _, n := range []string{"crypto/elliptic.P256", "crypto/elliptic.P384", "crypto/elliptic.P521", "crypto/elliptic.P224", "github.com/btcsuite/btcd/btcec.S256"} {
 			e.Stubs[n] = func(in *Interp, fn *ssa.Function, args []Value) (Value, bool) {
@@ -643,6 +662,24 @@ func init() {
 			return in.noteUF(in.tb.UF("multihash.validCode", SortBool, c)), true
 		}
 	})
+}
+
+// hashSize: digest length of the crypto.Hash identifiers the code base uses.
+func hashSize(alg *Term) (int64, bool) {
+	if !alg.IsConst() {
+		return 0, false
+	}
+	switch alg.U {
+	case 4, 14:
+		return 28, true
+	case 5, 15:
+		return 32, true
+	case 6:
+		return 48, true
+	case 7:
+		return 64, true
+	}
+	return 0, false
 }
 
 func deref(t types.Type) types.Type {
